@@ -35,7 +35,7 @@ Proof. exact setattr_model_refusal_is_code. Qed.
 Print Assumptions C09_setattr_model_refusal_is_code.
 
 (* ---- the functions that create key objects, regenerated whole in trace mode (gen/Gen_Keys.v, coq/P11/KeyGenFacts.v) ---- *)
-From SoftHSM Require Import Gen_Keys KeyGenSpec KeyGenFacts.
+From SoftHSM Require Import Gen_Keys KeyGenSpec KG_tails KeyGenFacts.
 
 (* the five secret-key generators, regenerated whole (gen/Gen_Keys.v), for every behaviour of the store and the crypto backend:
    a call that fails after CreateObject ends by looking the object up, unregistering its handle, destroying it and handing
@@ -82,3 +82,49 @@ Theorem C09_unwrap_failure_undoes_the_object : forall (e : C_UnwrapKey.env),
   (forall o, In (T_OBJD, o) (snd (C_UnwrapKey.app e)) -> o = g h).
 Proof. exact unwrap_failure_undoes_success_commits. Qed.
 Print Assumptions C09_unwrap_failure_undoes_the_object.
+
+(* PARTIAL (all 18 key-creating functions, including the key-pair generators and the derive functions, which are not executed
+   symbolically to their end): the continuation that begins with `if (rv != CKR_OK)` and unregisters a handle - `<f>_tail`,
+   picked from the regenerated code by translator/gen_kgproofs.py - returns rv unchanged and, when rv is not CKR_OK, performs
+   for every handle variable that is not CK_INVALID_HANDLE exactly: look-up, unregistration, destruction of the object found,
+   CK_INVALID_HANDLE to the caller.  Missing for the full statement: that every failing path reaches it (proved for six
+   functions above). *)
+Theorem C09_cleanup_tails_partial :
+  (forall (e : generateAES.env) (drf_phKey : N) (rv : N) (acc : list (N * N)) (r : R), generateAES_tail e drf_phKey rv acc r ->
+     r = (rv, (if rv =? 0 then [] else (if drf_phKey =? 0 then [] else cleanup 18446744073709551517 drf_phKey (generateAES.handleManager_getObject e))) ++ acc)) /\
+  (forall (e : generateDES.env) (drf_phKey : N) (rv : N) (acc : list (N * N)) (r : R), generateDES_tail e drf_phKey rv acc r ->
+     r = (rv, (if rv =? 0 then [] else (if drf_phKey =? 0 then [] else cleanup 18446744073709551517 drf_phKey (generateDES.handleManager_getObject e))) ++ acc)) /\
+  (forall (e : generateDES2.env) (drf_phKey : N) (rv : N) (acc : list (N * N)) (r : R), generateDES2_tail e drf_phKey rv acc r ->
+     r = (rv, (if rv =? 0 then [] else (if drf_phKey =? 0 then [] else cleanup 18446744073709551517 drf_phKey (generateDES2.handleManager_getObject e))) ++ acc)) /\
+  (forall (e : generateDES3.env) (drf_phKey : N) (rv : N) (acc : list (N * N)) (r : R), generateDES3_tail e drf_phKey rv acc r ->
+     r = (rv, (if rv =? 0 then [] else (if drf_phKey =? 0 then [] else cleanup 18446744073709551517 drf_phKey (generateDES3.handleManager_getObject e))) ++ acc)) /\
+  (forall (e : generateGeneric.env) (drf_phKey : N) (rv : N) (acc : list (N * N)) (r : R), generateGeneric_tail e drf_phKey rv acc r ->
+     r = (rv, (if rv =? 0 then [] else (if drf_phKey =? 0 then [] else cleanup 18446744073709551517 drf_phKey (generateGeneric.handleManager_getObject e))) ++ acc)) /\
+  (forall (e : generateRSA.env) (drf_phPublicKey : N) (drf_phPrivateKey : N) (rv : N) (acc : list (N * N)) (r : R), generateRSA_tail e drf_phPublicKey drf_phPrivateKey rv acc r ->
+     r = (rv, (if rv =? 0 then [] else (if drf_phPublicKey =? 0 then [] else cleanup 18446744073709551515 drf_phPublicKey (generateRSA.handleManager_getObject e)) ++ (if drf_phPrivateKey =? 0 then [] else cleanup 18446744073709551514 drf_phPrivateKey (generateRSA.handleManager_getObject e))) ++ acc)) /\
+  (forall (e : generateDSA.env) (drf_phPublicKey : N) (drf_phPrivateKey : N) (rv : N) (acc : list (N * N)) (r : R), generateDSA_tail e drf_phPublicKey drf_phPrivateKey rv acc r ->
+     r = (rv, (if rv =? 0 then [] else (if drf_phPublicKey =? 0 then [] else cleanup 18446744073709551515 drf_phPublicKey (generateDSA.handleManager_getObject e)) ++ (if drf_phPrivateKey =? 0 then [] else cleanup 18446744073709551514 drf_phPrivateKey (generateDSA.handleManager_getObject e))) ++ acc)) /\
+  (forall (e : generateDSAParameters.env) (drf_phKey : N) (rv : N) (acc : list (N * N)) (r : R), generateDSAParameters_tail e drf_phKey rv acc r ->
+     r = (rv, (if rv =? 0 then [] else (if drf_phKey =? 0 then [] else cleanup 18446744073709551517 drf_phKey (generateDSAParameters.handleManager_getObject e))) ++ acc)) /\
+  (forall (e : generateEC.env) (drf_phPublicKey : N) (drf_phPrivateKey : N) (rv : N) (acc : list (N * N)) (r : R), generateEC_tail e drf_phPublicKey drf_phPrivateKey rv acc r ->
+     r = (rv, (if rv =? 0 then [] else (if drf_phPublicKey =? 0 then [] else cleanup 18446744073709551515 drf_phPublicKey (generateEC.handleManager_getObject e)) ++ (if drf_phPrivateKey =? 0 then [] else cleanup 18446744073709551514 drf_phPrivateKey (generateEC.handleManager_getObject e))) ++ acc)) /\
+  (forall (e : generateED.env) (drf_phPublicKey : N) (drf_phPrivateKey : N) (rv : N) (acc : list (N * N)) (r : R), generateED_tail e drf_phPublicKey drf_phPrivateKey rv acc r ->
+     r = (rv, (if rv =? 0 then [] else (if drf_phPublicKey =? 0 then [] else cleanup 18446744073709551515 drf_phPublicKey (generateED.handleManager_getObject e)) ++ (if drf_phPrivateKey =? 0 then [] else cleanup 18446744073709551514 drf_phPrivateKey (generateED.handleManager_getObject e))) ++ acc)) /\
+  (forall (e : generateDH.env) (drf_phPublicKey : N) (drf_phPrivateKey : N) (rv : N) (acc : list (N * N)) (r : R), generateDH_tail e drf_phPublicKey drf_phPrivateKey rv acc r ->
+     r = (rv, (if rv =? 0 then [] else (if drf_phPublicKey =? 0 then [] else cleanup 18446744073709551515 drf_phPublicKey (generateDH.handleManager_getObject e)) ++ (if drf_phPrivateKey =? 0 then [] else cleanup 18446744073709551514 drf_phPrivateKey (generateDH.handleManager_getObject e))) ++ acc)) /\
+  (forall (e : generateDHParameters.env) (drf_phKey : N) (rv : N) (acc : list (N * N)) (r : R), generateDHParameters_tail e drf_phKey rv acc r ->
+     r = (rv, (if rv =? 0 then [] else (if drf_phKey =? 0 then [] else cleanup 18446744073709551517 drf_phKey (generateDHParameters.handleManager_getObject e))) ++ acc)) /\
+  (forall (e : generateGOST.env) (drf_phPublicKey : N) (drf_phPrivateKey : N) (rv : N) (acc : list (N * N)) (r : R), generateGOST_tail e drf_phPublicKey drf_phPrivateKey rv acc r ->
+     r = (rv, (if rv =? 0 then [] else (if drf_phPublicKey =? 0 then [] else cleanup 18446744073709551515 drf_phPublicKey (generateGOST.handleManager_getObject e)) ++ (if drf_phPrivateKey =? 0 then [] else cleanup 18446744073709551514 drf_phPrivateKey (generateGOST.handleManager_getObject e))) ++ acc)) /\
+  (forall (e : deriveDH.env) (drf_phKey : N) (rv : N) (acc : list (N * N)) (r : R), deriveDH_tail e drf_phKey rv acc r ->
+     r = (rv, (if rv =? 0 then [] else (if drf_phKey =? 0 then [] else cleanup 18446744073709551515 drf_phKey (deriveDH.handleManager_getObject e))) ++ acc)) /\
+  (forall (e : deriveECDH.env) (drf_phKey : N) (rv : N) (acc : list (N * N)) (r : R), deriveECDH_tail e drf_phKey rv acc r ->
+     r = (rv, (if rv =? 0 then [] else (if drf_phKey =? 0 then [] else cleanup 18446744073709551515 drf_phKey (deriveECDH.handleManager_getObject e))) ++ acc)) /\
+  (forall (e : deriveEDDSA.env) (drf_phKey : N) (rv : N) (acc : list (N * N)) (r : R), deriveEDDSA_tail e drf_phKey rv acc r ->
+     r = (rv, (if rv =? 0 then [] else (if drf_phKey =? 0 then [] else cleanup 18446744073709551515 drf_phKey (deriveEDDSA.handleManager_getObject e))) ++ acc)) /\
+  (forall (e : deriveSymmetric.env) (drf_phKey : N) (rv : N) (acc : list (N * N)) (r : R), deriveSymmetric_tail e drf_phKey rv acc r ->
+     r = (rv, (if rv =? 0 then [] else (if drf_phKey =? 0 then [] else cleanup 18446744073709551515 drf_phKey (deriveSymmetric.handleManager_getObject e))) ++ acc)) /\
+  (forall (e : C_UnwrapKey.env) (drf_hKey : N) (rv : N) (acc : list (N * N)) (r : R), C_UnwrapKey_tail e drf_hKey rv acc r ->
+     r = (rv, (if rv =? 0 then [] else (if drf_hKey =? 0 then [] else cleanup 18446744073709551513 drf_hKey (C_UnwrapKey.handleManager_getObject e))) ++ acc)).
+Proof. exact cleanup_tails_partial. Qed.
+Print Assumptions C09_cleanup_tails_partial.
